@@ -206,15 +206,277 @@ def build(uni):
             ("reads", "unchanged('$readset')")],
         modifies=["$writeset"])}
     cs.append(c)
+    cs.append(resolve_contract(uni))
     return cs
+
+
+def resolve_contract(uni):
+    """CallTreeUtils._resolve_calls_and_unknowns: the work-list loop over
+    the non-local accesses found in the call tree (statement range from
+    `done = set()` to the end of the while loop).  Work-list entries are
+    records (type, module, signature, access info); the module manager, the
+    module's container, its routines and symbol table are opaque objects
+    (uninterpreted functions of their arguments, any of the refusals the
+    code handles may happen)."""
+    from pyvc.values import VTuple, VStr, STR
+    from pyvc.state import fresh
+    from pyvc.interp import PyRaise, VExc
+    BOOL = z3.BoolSort()
+    AL0 = z3.Const("H0_$alloc", z3.ArraySort(Ref, BOOL))
+    P1 = z3.Function("info_type", Ref, STR)
+    P2 = z3.Function("info_module", Ref, STR)
+    P3 = z3.Function("info_signature", Ref, Ref)
+    P4 = z3.Function("info_access", Ref, Ref)
+    uni.records["NLInfo"] = [(P1, "str"), (P2, "str"), (P3, "SigX"),
+                             (P4, "AccX")]
+    sort_of_tag = {"str": STR, "ref": Ref, "int": z3.IntSort(),
+                   "bool": BOOL}
+    made = {}
+
+    def tuple_encoder(it, tup):
+        """a tuple as a value: TUP<sorts>(fields); the projections are
+        axiomatised, so equal tuples are equal values and tuples that differ
+        in a field differ; the arity is a field of the value as well"""
+        vals = [it.to_z3(x) for x in tup.items]
+        sorts = [v.sort() for v in vals]
+        key = ",".join(str(x) for x in sorts)
+        if key not in made:
+            if len(vals) == 4 and [str(x) for x in sorts] == [
+                    "String", "String", "Ref", "Ref"]:
+                mk = z3.Function("mk_info", *sorts, Ref)
+                projs = [P1, P2, P3, P4]
+            else:
+                mk = z3.Function(f"mk_tuple_{len(made)}", *sorts, Ref)
+                projs = [z3.Function(f"proj_{len(made)}_{k}", Ref, so)
+                         for k, so in enumerate(sorts)]
+            xs = [z3.Const(f"tf{k}", so) for k, so in enumerate(sorts)]
+            ar = z3.Function("tuple_arity", Ref, z3.IntSort())
+            uni.axioms.append(z3.ForAll(xs, z3.And(
+                mk(*xs) != NULLC, z3.Select(AL0, mk(*xs)),
+                ar(mk(*xs)) == len(xs),
+                *[pr(mk(*xs)) == x for pr, x in zip(projs, xs)]),
+                patterns=[mk(*xs)]))
+            made[key] = mk
+        return made[key](*vals)
+    uni.tuple_encoder = tuple_encoder
+
+    IGN = z3.Function("ignored_modules", Ref, Ref)
+    MI = z3.Function("module_info", Ref, STR, Ref)
+    CNTR = z3.Function("container_of", Ref, Ref)
+    RR = z3.Function("resolved_routines", Ref, STR, Ref)
+    RP = z3.Function("routine_psyir", Ref, STR, Ref)
+    TAB = z3.Function("table_of", Ref, Ref)
+    SYM = z3.Function("looked_up", Ref, STR, Ref)
+    CONST = z3.Function("is_constant_symbol", Ref, BOOL)
+    W = z3.Function("acc_is_written", Ref, BOOL)
+    WF = z3.Function("acc_is_written_first", Ref, BOOL)
+    S0 = z3.Function("signature_first_name", Ref, STR)
+
+    def nonnull(st, e):
+        st.assume(z3.And(e != NULLC, z3.Select(AL0, e)))
+        return e
+
+    def h_ignores(it, selfv, args, kw, st, fr):
+        return VRef(nonnull(st, IGN(selfv.e)), "set", "str")
+
+    def h_modinfo(it, selfv, args, kw, st, fr):
+        found = fresh("module_found", BOOL)
+        if not it.dec.branch(st, found):
+            raise PyRaise(VExc("FileNotFoundError"))
+        return VRef(nonnull(st, MI(selfv.e, args[0].e)), "ModInfoX")
+
+    def h_psyir(it, selfv, args, kw, st, fr):
+        e = CNTR(selfv.e)
+        st.assume(z3.Select(AL0, e))
+        return VRef(e, "CntrX")
+
+    def h_resolve(it, selfv, args, kw, st, fr):
+        lst = VRef(nonnull(st, RR(selfv.e, args[0].e)), "list", "str")
+        st.assume(st.read("$len", lst.e, "int") >= 0)
+        # a list of names is not the work list of records
+        work = fr.env.get("outstanding_nonlocals")
+        if isinstance(work, VRef):
+            st.assume(lst.e != work.e)
+        return lst
+
+    def h_routine(it, selfv, args, kw, st, fr):
+        e = RP(selfv.e, args[0].e)
+        st.assume(z3.Select(AL0, e))
+        return VRef(e, "RoutineX")
+
+    def h_table(it, selfv, args, kw, st, fr):
+        return VRef(nonnull(st, TAB(selfv.e)), "TabX")
+
+    def h_lookup(it, selfv, args, kw, st, fr):
+        found = fresh("symbol_found", BOOL)
+        if not it.dec.branch(st, found):
+            raise PyRaise(VExc("KeyError"))
+        return VRef(nonnull(st, SYM(selfv.e, args[0].e)), "SymX")
+
+    def h_nonlocals(it, selfv, args, kw, st, fr):
+        # an arbitrary new list of well-formed records
+        lst = it.alloc(st, "list", "NLInfo", "nonlocals")
+        n = fresh("n_nonlocals", z3.IntSort())
+        arr = fresh("nonlocals", z3.ArraySort(z3.IntSort(), Ref))
+        st.assume(n >= 0)
+        q = z3.Int("qn")
+        st.assume(z3.ForAll([q], z3.Implies(z3.And(0 <= q, q < n), z3.And(
+            P3(arr[q]) != NULLC, P4(arr[q]) != NULLC,
+            z3.Select(AL0, arr[q]), arr[q] != NULLC))))
+        it.set_list(lst, st, arr, n)
+        return lst
+    uni.method_hooks.update({
+        "ModMgrX.ignores": h_ignores,
+        "ModMgrX.get_module_info": h_modinfo,
+        "ModInfoX.get_psyir": h_psyir,
+        "CntrX.resolve_routine": h_resolve,
+        "CntrX.get_routine_psyir": h_routine,
+        "TabX.lookup": h_lookup,
+        "AccX.is_written": lambda it, selfv, a, k, st, fr: VBool(W(selfv.e)),
+        "AccX.is_written_first": lambda it, selfv, a, k, st, fr: VBool(
+            WF(selfv.e)),
+        "SigX.__getitem__": lambda it, selfv, a, k, st, fr: VStr(
+            S0(selfv.e)),
+        "CallTreeUtils.get_non_local_symbols": h_nonlocals,
+    })
+    uni.prop_hooks.update({
+        "CntrX.symbol_table": h_table,
+        "SymX.is_constant": lambda it, selfv, a, k, st, fr: VBool(
+            CONST(selfv.e)),
+    })
+
+    def field(k):
+        def h(it, a, kw, st, fr):
+            t = a[0]
+            if isinstance(t, VTuple):
+                return t.items[k]
+            proj, tag = uni.records["NLInfo"][k]
+            return it.mkval(proj(t.e), tag)
+        return h
+    uni.consts.update({
+        "I_TYPE": VFunc("hook", fn=field(0)),
+        "I_MOD": VFunc("hook", fn=field(1)),
+        "I_SIG": VFunc("hook", fn=field(2)),
+        "I_ACC": VFunc("hook", fn=field(3)),
+        # the record as an object (for identity) and back
+        "REF": VFunc("hook", fn=lambda it, a, k, st, fr: VRef(
+            it.to_z3(a[0]), "Obj")),
+        "IS_W": VFunc("hook", fn=lambda it, a, k, st, fr: VBool(W(a[0].e))),
+        "IS_WF": VFunc("hook", fn=lambda it, a, k, st, fr: VBool(
+            WF(a[0].e))),
+        "IGNORED": VFunc("hook", fn=lambda it, a, k, st, fr: VBool(
+            z3.Select(st.read("$set.str", IGN(a[0].e), "set[str]"),
+                      a[1].e))),
+        # (module, signature) is in the given set of pairs
+        "HAS": VFunc("hook", fn=lambda it, a, k, st, fr: VBool(z3.Select(
+            st.read("$set.ref", a[0].e, "set[ref]"),
+            it.to_z3(VTuple([a[1], a[2]]))))),
+        "INDONE": VFunc("hook", fn=lambda it, a, k, st, fr: VBool(z3.Select(
+            st.read("$set.ref", a[0].e, "set[ref]"), a[1].e))),
+    })
+    uni.preds.update({
+        # what the property needs of a plain variable access t found in the
+        # call tree (module not ignored): written -> an output; its incoming
+        # value possibly read -> an input
+        "HANDLED": (["t"], """
+            implies(I_TYPE(t) == 'reference' and
+                    not IGNORED(mod_manager, I_MOD(t)),
+                implies(IS_W(I_ACC(t)),
+                        HAS(out_vars, I_MOD(t), I_SIG(t))) and
+                implies(not IS_WF(I_ACC(t)),
+                        HAS(in_vars, I_MOD(t), I_SIG(t))))
+            """),
+        "NLWF": (["l"], """
+            l is not None and len(l) >= 0 and
+            forall(lambda q: implies(0 <= q and q < len(l),
+                REF(at(l, q)) is not None and I_SIG(at(l, q)) is not None
+                and I_ACC(at(l, q)) is not None))
+            """),
+    })
+    c = Contract(
+        f"{CT}:CallTreeUtils._resolve_calls_and_unknowns",
+        params={"self": "CallTreeUtils",
+                "outstanding_nonlocals": "list[NLInfo]",
+                "read_write_info": "ReadWriteInfo"},
+        ghost={"mod_manager": "ModMgrX"},
+        requires=[("worklist", "NLWF(outstanding_nonlocals) and "
+                               "mod_manager is not None")],
+        ensures=[
+            ("every_variable_access_of_the_call_tree_is_recorded",
+             "forall(lambda q: implies(0 <= q and "
+             "q < old(len(outstanding_nonlocals)), "
+             "HANDLED(old(at(outstanding_nonlocals, q)))))"),
+        ],
+        raises={}, modifies=["$len", "$items.ref", "$set.ref", "$card"],
+        covers=[("records_one", "exists(lambda q: 0 <= q and "
+                 "q < old(len(outstanding_nonlocals)) and "
+                 "I_TYPE(old(at(outstanding_nonlocals, q))) == 'reference' "
+                 "and IS_W(I_ACC(old(at(outstanding_nonlocals, q)))) and "
+                 "not IGNORED(mod_manager, "
+                 "I_MOD(old(at(outstanding_nonlocals, q)))))")])
+    c.stmt_range = ("done = set()", "for module_name, signature in in_vars")
+    c.range_frame = ()
+    uni.contracts["CallTreeUtils._resolve_calls_and_unknowns:top"] = c
+    import ast
+    from pyvc.stmts import loop_ordinals
+    fn, _ = uni.repo.function(c.func)
+    ords = loop_ordinals(fn)
+    whiles = [n for n in ast.walk(fn) if isinstance(n, ast.While)]
+    WL = ords[id(whiles[0])]
+    MAIN = ("forall(lambda q: implies(0 <= q and "
+            "q < old(len(outstanding_nonlocals)), "
+            "(q < {L} and REF(at(outstanding_nonlocals, q)) is "
+            "old(REF(at(outstanding_nonlocals, q)))) or "
+            "HANDLED(old(at(outstanding_nonlocals, q)))))")
+    DONE_OK = ("forall(lambda x: implies(INDONE(done, x), HANDLED(x)), "
+               "'NLInfo')")
+    SETS = ("done is not None and in_vars is not None and "
+            "out_vars is not None and done is not in_vars and "
+            "done is not out_vars and in_vars is not out_vars")
+    uni.loopspecs["CallTreeUtils._resolve_calls_and_unknowns"] = {
+        WL: LoopSpec(invariants=[
+            ("worklist", "NLWF(outstanding_nonlocals)"),
+            ("sets", SETS),
+            ("main", MAIN.format(L="len(outstanding_nonlocals)")),
+            ("done_ok", DONE_OK)],
+            modifies=["$len", "$items.ref", "$set.ref", "$card"]),
+        WL + 1: LoopSpec(invariants=[
+            ("worklist", "NLWF(outstanding_nonlocals)"),
+            ("prefix", "len(outstanding_nonlocals) >= "
+                       "entry(len(outstanding_nonlocals)) and "
+                       "forall(lambda q: implies(0 <= q and "
+                       "q < entry(len(outstanding_nonlocals)), "
+                       "REF(at(outstanding_nonlocals, q)) is "
+                       "entry(REF(at(outstanding_nonlocals, q)))))"),
+            ("names", "_iter is not None and "
+                      "_iter is not outstanding_nonlocals and "
+                      "len(_iter) == entry(len(_iter))")],
+            modifies=["$len", "$items.ref"]),
+    }
+    uni.local_types["CallTreeUtils._resolve_calls_and_unknowns"] = {
+        "done": "set[Obj]", "in_vars": "set[Obj]", "out_vars": "set[Obj]"}
+    uni.note_assumption(
+        "_resolve_calls_and_unknowns: verified on the statement range from "
+        "`done = set()` to the end of the work-list loop; ModuleManager, "
+        "ModuleInfo, the module's Container (resolve_routine, "
+        "get_routine_psyir, symbol_table.lookup, is_constant), "
+        "get_non_local_symbols (returns an arbitrary new list of records), "
+        "Signature[0]/str and SingleVariableAccessInfo.is_written / "
+        "is_written_first are uninterpreted; get_module_info and lookup may "
+        "fail; module names are strings (the None case of an unknown "
+        "routine's module is not modelled); tuples are values (constructor "
+        "with axiomatised projections and arity)")
+    return c
 
 
 TRUSTED = [
     "pyvc VC generator and z3",
     "the abstract access view (C11 link assumed); accessor hooks",
-    "NOT under contract: CallTreeUtils._resolve_calls_and_unknowns / "
-    "get_non_local_read_write_info (call-tree following for non-local "
-    "symbols), ExtractNode / ExtractTrans plumbing",
+    "NOT under contract: get_non_local_symbols / "
+    "get_non_local_read_write_info (which records the call tree yields), "
+    "the two final loops of _resolve_calls_and_unknowns that copy the sets "
+    "into the ReadWriteInfo, the module manager and everything it parses, "
+    "termination of the work-list loop, ExtractNode / ExtractTrans plumbing",
 ]
 EXPLANATION = (
     "For every list of signatures and every access sequence per signature "
@@ -229,6 +491,8 @@ EXPLANATION = (
 
 def replay(name, ob, model, uni):
     from realise import C12 as R
+    if "_resolve_calls_and_unknowns" in name:
+        return R.run_resolve()
     # inputs of the recorded known class only count for its own obligation
     if name.endswith("done_strict") or name.endswith(":inputs_complete"):
         return R.run()
@@ -271,3 +535,13 @@ def extra(uni, tier, seed):
                      "regions on the serial evaluator", count=n_ok,
                      bounded=True))
     return out
+
+
+def bounded(uni, tier, seed):
+    """fallback when an obligation is undecided: the work lists of
+    realise/C12.resolve_cases on the real function, then the regions"""
+    from realise import C12 as R
+    rp = R.run_resolve()
+    if rp.get("confirmed"):
+        return rp
+    return R.run("other")
